@@ -16,6 +16,14 @@ CLAIMED = {
             "the preset table is enumerated completely against an independently built table; every configuration of a 2x2x2 two-species lattice gas up to the stated atom count is run through all three consumers with preset vs array",
             "trusts ase.data as the documented table; differential family is bounded (<=3 atoms quick, <=5 thorough, 3 pbc masks, 2 spacings)",
             "DESIGN.md §4 C19"),
+    "C20": ("exhaustive enumeration of a finite input alphabet against element-wise numeric identities",
+            "every (cell, pbc mask, 1-3 atoms on a half-step grid over [-1,2)^3, exact/offset) input is pushed through every helper with all axes / min sizes / index pairs and each clause of the statement is evaluated as an identity",
+            "bounded alphabet (<=3 atoms, listed cells); centre-of-mass clauses skipped where the circular mean is undefined; weight=False may use either periodic centre",
+            "DESIGN.md §4 C20"),
+    "C09": ("exhaustive root enumeration + presentation BFS (depth 1) on the real get_dimensionality vs a periodic bonding-graph reference model",
+            "every root of the stated grid families is compared with a union-find/cycle-rank reference and re-presented by every generator (supercell, shear, rigid motion, permutation, lattice-vector shifts); the implementation must return the reference value in every reached state",
+            "bounded alphabet (<=4 atoms per root, listed cells, 2 radii levels + 3 presets, 3 thresholds); roots within 1e-6 of a bond threshold and roots with GF(2) rank != integer rank are skipped and counted",
+            "DESIGN.md §4 C09"),
 }
 NA_REASON = "check not built yet in this round; see DESIGN.md §7 order of work"
 
